@@ -1,4 +1,5 @@
 import RadicaleProofs.DavCond
+import RadicaleProofs.CondHeaders
 /-
   C08 — ETags identify content and conditional requests prevent lost updates.
   In the model an item's ETag *is* its content id (SHA-256 as a perfect hash), the same value in the PUT
@@ -55,5 +56,126 @@ theorem coll_etag_sensitive (c d : Coll) (h : collEtag c = collEtag d) (ht : c.t
   have h2 := h.2
   rw [ht] at h2
   cases hd : d.tag <;> simp_all
+
+
+/-! ### the headers as the client sent them (model RadicaleModel/CondHeaders.lean): `If-Match`, `If-None-Match`, `Overwrite`
+    are compared as text, exactly; the `Dav` model's tests on content ids are those tests (`wire_refines_dav_*`), so the
+    theorems above hold for the header text -/
+section Wire
+open Radicale Radicale.CondHeaders
+
+/-- a PUT that carries `If-Match: e` (any non-empty text: an ETag, a weak validator, a list, `*`) and is not refused found
+    a resource whose current ETag is literally `e` -/
+theorem wire_put_if_match_exact (cur : Option Str) (w : Wire) (e : Str) (hw : w.ifMatch = some e) (he : e ≠ [])
+    (h : putRefuses cur w = false) : cur = some e := by
+  cases cur with
+  | none => simp [putRefuses, hw, he] at h
+  | some c =>
+    simp [putRefuses, hw, he] at h
+    rw [h.1]
+
+/-- a PUT that carries `If-None-Match: *` and is not refused found nothing at the path -/
+theorem wire_put_if_none_match_star (cur : Option Str) (w : Wire) (hw : w.ifNoneMatch = some ['*'])
+    (h : putRefuses cur w = false) : cur = none := by
+  cases cur with
+  | none => rfl
+  | some c => simp [putRefuses, hw] at h
+
+/-- without the two headers (or with empty ones) PUT is never refused for a precondition -/
+theorem wire_put_unconditional (cur : Option Str) (w : Wire) (h1 : w.ifMatch.getD [] = []) (h2 : w.ifNoneMatch.getD [] ≠ ['*']) :
+    putRefuses cur w = false := by
+  simp [putRefuses, h1, h2]
+
+/-- a DELETE that carries `If-Match: e` with `e` other than `*` and is not refused found a resource whose ETag is literally `e` -/
+theorem wire_delete_if_match_exact (cur : Str) (w : Wire) (e : Str) (hw : w.ifMatch = some e) (he : e ≠ ['*'])
+    (h : deleteRefuses cur w = false) : e = cur := by
+  simpa [deleteRefuses, hw, he] using h
+
+/-- two clients hold the same ETag `e`; once the first one's write went through and the resource's ETag is no longer `e`
+    (new content, or gone), the second one's `If-Match: e` PUT and DELETE are refused -/
+theorem wire_racing_writers (e : Str) (he : e ≠ []) (hs : e ≠ ['*']) (w1 w2 : Wire) (_h1 : w1.ifMatch = some e) (h2 : w2.ifMatch = some e)
+    (cur cur' : Option Str) (_first : putRefuses cur w1 = false) (hchanged : cur' ≠ some e) :
+    putRefuses cur' w2 = true ∧ ∀ c, cur' = some c → deleteRefuses c w2 = true := by
+  constructor
+  · cases hr : putRefuses cur' w2 with
+    | true => rfl
+    | false => exact absurd (wire_put_if_match_exact cur' w2 e h2 he hr) hchanged
+  · intro c hc
+    cases hr : deleteRefuses c w2 with
+    | true => rfl
+    | false =>
+      have := wire_delete_if_match_exact c w2 e h2 hs hr
+      exact absurd (by rw [hc, this]) hchanged
+
+/-- MOVE replaces an existing destination only for the literal header value `T` (absent, `t`, ` T`, `true` … do not) -/
+theorem wire_overwrite_exact (w : Wire) : overwrites w = true ↔ w.overwrite = some ['T'] := by
+  cases h : w.overwrite <;> simp [overwrites, h]
+
+/-- PROPFIND stays on the resource itself exactly for an absent header and the literal `0` -/
+theorem wire_depth_zero (w : Wire) : listsChildren w = false ↔ (w.depth = none ∨ w.depth = some ['0']) := by
+  cases h : w.depth <;> simp [listsChildren, h]
+
+/-- the `Dav` model's test for PUT, on the digest of the headers, is the handler's test on the header text -/
+theorem wire_refines_dav_put (etagOf : Nat → Str) (tbl : List (Str × Nat)) (cur : Option Nat) (w : Wire)
+    (hf : Faithful etagOf tbl) (hk : ∀ c, cur = some c → Knows etagOf tbl c) :
+    putRefuses (cur.map etagOf) w = davPutRefuses cur (digestPut tbl w) :=
+  putRefuses_digest etagOf tbl cur w hf hk
+
+theorem wire_refines_dav_delete (etagOf : Nat → Str) (tbl : List (Str × Nat)) (c : Nat) (w : Wire)
+    (hf : Faithful etagOf tbl) (hk : Knows etagOf tbl c) :
+    deleteRefuses (etagOf c) w = davDeleteRefuses c (digestDelete tbl w) :=
+  deleteRefuses_digest etagOf tbl c w hf hk
+
+/-- the request model fed with the digest: a PUT with header text `If-Match: e` is carried out only on an item whose ETag
+    text is `e` -/
+theorem wire_put_carried_out_only_current (cfg : Cfg) (rights : Rights) (user : String) (s : Store) (p : Path) (body : Body)
+    (etagOf : Nat → Str) (tbl : List (Str × Nat)) (hf : Faithful etagOf tbl) (w : Wire) (e : Str) (hw : w.ifMatch = some e) (he : e ≠ [])
+    (imc) (pc : Coll) (hpc : parentOk s p = some pc) (htag : pc.tag ≠ .none) (hnc : ∀ q c, resolve s p ≠ .coll q c) :
+    ∀ u, (putU cfg rights user s p body (digestPut tbl w).ifMatch (digestPut tbl w).raw (digestPut tbl w).star imc).2 = some u →
+      ∃ parent c h it, resolve s p = .item parent c h it ∧ etagOf it.cid = e := by
+  intro u hu
+  have hraw : (digestPut tbl w).raw = true := by simp [digestPut, hw, he]
+  rw [hraw] at hu
+  obtain ⟨parent, c, h, it, hr, hit⟩ := put_if_match_only_current cfg rights user s p body _ _ imc pc hpc htag hnc u hu
+  refine ⟨parent, c, h, it, hr, ?_⟩
+  have : lookup tbl e = some it.cid := by simpa [digestPut, hw] using hit
+  exact hf e it.cid this
+
+/-- … and a DELETE with header text `If-Match: e` (not `*`) likewise -/
+theorem wire_delete_carried_out_only_current (cfg : Cfg) (rights : Rights) (user : String) (s : Store) (p : Path)
+    (etagOf : Nat → Str) (tbl : List (Str × Nat)) (hf : Faithful etagOf tbl) (w : Wire) (e : Str) (hw : w.ifMatch = some e) (he : e ≠ ['*'])
+    (parent : Path) (c : Coll) (h : String) (it : Item) (hr : resolve s p = .item parent c h it) (imc) :
+    ∀ u, (deleteU cfg rights user s p (digestDelete tbl w) imc).2 = some u → etagOf it.cid = e := by
+  intro u hu
+  have hd : digestDelete tbl w = some (lookup tbl e) := by simp [digestDelete, hw, he]
+  rw [hd] at hu
+  exact hf e it.cid (delete_if_match_only_current cfg rights user s p _ parent c h it hr imc u hu)
+
+/-- lost update excluded, on the header text: the resource's ETag text is no longer the `e` both writers saw -/
+theorem wire_lost_update_excluded (cfg : Cfg) (rights : Rights) (user : String) (s' : Store) (p : Path) (body : Body)
+    (etagOf : Nat → Str) (tbl : List (Str × Nat)) (hf : Faithful etagOf tbl) (w : Wire) (e : Str) (hw : w.ifMatch = some e) (he : e ≠ [])
+    (imc) (pc : Coll) (hpc : parentOk s' p = some pc) (htag : pc.tag ≠ .none)
+    (parent : Path) (c : Coll) (h : String) (it : Item) (hr : resolve s' p = .item parent c h it) (hchanged : etagOf it.cid ≠ e) :
+    (putU cfg rights user s' p body (digestPut tbl w).ifMatch (digestPut tbl w).raw (digestPut tbl w).star imc).2 = none := by
+  cases hu : (putU cfg rights user s' p body (digestPut tbl w).ifMatch (digestPut tbl w).raw (digestPut tbl w).star imc).2 with
+  | none => rfl
+  | some u =>
+    have hnc : ∀ q c, resolve s' p ≠ .coll q c := by intro q c' hq; rw [hr] at hq; cases hq
+    obtain ⟨parent', c', h', it', hr', hit⟩ :=
+      wire_put_carried_out_only_current cfg rights user s' p body etagOf tbl hf w e hw he imc pc hpc htag hnc u hu
+    rw [hr] at hr'
+    cases hr'
+    exact absurd hit hchanged
+
+/-- the premises are met by concrete header texts: the current ETag goes through, a weak validator, a list and `*` on PUT do not -/
+example : putRefuses (some "\"ab\"".toList) { ifMatch := some "\"ab\"".toList } = false
+    ∧ putRefuses (some "\"ab\"".toList) { ifMatch := some "W/\"ab\"".toList } = true
+    ∧ putRefuses (some "\"ab\"".toList) { ifMatch := some "\"ab\", \"cd\"".toList } = true
+    ∧ putRefuses (some "\"ab\"".toList) { ifMatch := some "*".toList } = true
+    ∧ deleteRefuses "\"ab\"".toList { ifMatch := some "*".toList } = false
+    ∧ deleteRefuses "\"ab\"".toList { ifMatch := some "\"cd\"".toList } = true
+    ∧ overwrites { overwrite := some "t".toList } = false ∧ listsChildren { depth := some "infinity".toList } = true := by decide
+
+end Wire
 
 end C08
